@@ -109,11 +109,17 @@ class SuperNet(DNAS):
         :rtype: nn.Module
         """
         model = self.seed
-        # convert() forces eval() on the seed: restore the training status afterwards
+        # convert() forces eval() on the seed and runs a forward pass on it (shape propagation), which
+        # re-samples the selection coefficients in eval mode: restore the training status and the
+        # coefficients sampled by the last forward pass afterwards
         training_status = {m: m.training for m in self.seed.modules()}
+        sampled = {m: m.theta_alpha for m in self.seed.modules()
+                   if isinstance(m, SuperNetCombiner)}
         model, _, _ = convert(model, self._input_example, 'export')
         for m, t in training_status.items():
             m.training = t
+        for m, t in sampled.items():
+            m.theta_alpha = t
         return model
 
     def summary(self) -> Dict[str, Dict[str, Any]]:
